@@ -440,6 +440,34 @@ func (e *Engine) store(st *state, fr *frame, addr, v *Val, instr ssa.Instruction
 		}
 	}
 	st.mem[addr.Key()] = memEntry{Addr: addr, V: v}
+	// a field store into a record whose value as a whole is recorded (`marks := T{…}; marks.f = x`): the whole value
+	// changes with it
+	for a := addr; a.Op == "field" && len(a.Args) == 1; a = a.Args[0] {
+		parent := a.Args[0]
+		pe, has := st.mem[parent.Key()]
+		if !has || parent.Type == nil {
+			break
+		}
+		pt, ok := parent.Type.Underlying().(*types.Pointer)
+		if !ok {
+			delete(st.mem, parent.Key())
+			break
+		}
+		stt, ok := pt.Elem().Underlying().(*types.Struct)
+		if !ok || stt.NumFields() > 32 {
+			delete(st.mem, parent.Key())
+			break
+		}
+		agg := &Val{Op: "struct", Type: pt.Elem()}
+		for i := 0; i < stt.NumFields(); i++ {
+			if i == a.ID {
+				agg.Args = append(agg.Args, st.mem[a.Key()].V)
+			} else {
+				agg.Args = append(agg.Args, fieldOfVal(pe.V, i, stt.Field(i).Name(), stt.Field(i).Type()))
+			}
+		}
+		st.mem[parent.Key()] = memEntry{Addr: parent, V: agg}
+	}
 	// an element store into a slice whose bytes are known in bulk (filled by a read, staged number …) changes them
 	if addr.Op == "index" {
 		base := addr.Args[0]
